@@ -292,6 +292,9 @@ pub struct Walker {
     pub foreign: u16,
     /// dimensions (per the documented block layout) of the last configuration block this walker sent
     pub cfg_dims: Option<(u32, u32)>,
+    /// whether the walker may send "doctored" blocks: a supported (family, id) with altered size fields.  Such a sign
+    /// reports a known type while holding other dimensions; C08's configure-if-needed clause is not quantified over that.
+    pub doctored: bool,
 }
 
 /// Width and height a configuration block describes, per the documented layout (None for other families).
@@ -308,6 +311,17 @@ pub fn documented_dims(b: &[u8]) -> Option<(u32, u32)> {
 
 impl Walker {
     fn rand_cfg(&mut self) -> Vec<u8> {
+        let b = self.rand_cfg_any();
+        if !self.doctored {
+            // a block with a supported (family, id) is only sent in its real form
+            if let Ok(t) = SignType::from_bytes(&b) {
+                return t.to_bytes().to_vec();
+            }
+        }
+        b
+    }
+
+    fn rand_cfg_any(&mut self) -> Vec<u8> {
         let rng = &mut self.rng;
         match rng.gen_range(0..10) {
             0..=3 => {
@@ -327,6 +341,7 @@ impl Walker {
                 all[rng.gen_range(0..all.len())].to_bytes().to_vec()
             }
             4 => cfg_tiny(),
+            5 if !self.doctored => cfg_tiny(),
             5 => {
                 // a real block with one to three of its other bytes altered (known family/id, different size fields)
                 let all = crate::ctl::ALL_TYPES;
@@ -501,7 +516,7 @@ pub fn record_walks(a: &Args, out: &mut TraceOut, seed_salt: u64, walks: usize, 
         };
         let foreign = own ^ (1u16 << (w % 16)); // a near miss: differs from the own address in exactly one bit
         let flip = if w % 2 == 0 { PageFlipStyle::Manual } else { PageFlipStyle::Automatic };
-        let mut walker = Walker { rng, own: vec![own], foreign, cfg_dims: None };
+        let mut walker = Walker { rng, own: vec![own], foreign, cfg_dims: None, doctored: true };
         let mut s = VirtualSign::new(Address(own), flip);
         out.emit(json!({"e": "reset", "addr": own, "flip": flip_name(flip)}));
         let (mut sent, mut chunks) = (0usize, 0u32);
@@ -787,7 +802,7 @@ pub fn record_bus_walks(a: &Args, out: &mut TraceOut, salt: u64, walks: usize, s
         let signs: Vec<VirtualSign<'static>> = (0..n).map(|i| VirtualSign::new(Address(addrs[i]), flips[i])).collect();
         let mut bus = VirtualSignBus::new(signs);
         out.emit(json!({"e": "busreset", "signs": (0..n).map(|i| json!({"addr": addrs[i], "flip": flip_name(flips[i])})).collect::<Vec<_>>()}));
-        let mut walker = Walker { rng, own: addrs.clone(), foreign: absent, cfg_dims: None };
+        let mut walker = Walker { rng, own: addrs.clone(), foreign: absent, cfg_dims: None, doctored: true };
         let mut focus = 0usize;
         let (mut sent, mut chunks) = (vec![0usize; n], vec![0u32; n]);
         for _ in 0..steps {
